@@ -125,6 +125,23 @@ def cases(tier, rng, schema, feats):
             lst = (known * 2)[:pos] + [pr] + known[: max(0, 2 - pos)]
             out.append(f"C12.elem{tag}.{n}\tdec2\t{_c14.mc(lst).hex()}")
             n += 1
+    # two limits at once: descriptor lists at, one over and two over their capacity (allow list 10, exclude list 16) in which one, two
+    # or all entries - at the first, a middle and the last position - carry a credential id at, one over and well over the id limit,
+    # or a type of 33 bytes: each limit is exact whatever the other one does
+    def desc(idlen, ty="public-key"):
+        return cbor.M([("id", rng.bytes(idlen)), ("type", ty)])
+    for cmd, key, cap in ((2, 3, 10), (1, 5, 16)):
+        for count in (cap - 1, cap, cap + 1, cap + 2):
+            for idlen in (255, 256, 300, 1023, 1024, 1025):
+                for where in ([0], [2], [count - 1], [0, 1], [2, count - 1], list(range(count))):
+                    lst = [desc(idlen if j in where else 16) for j in range(count)]
+                    if cmd == 2:
+                        tree = cbor.M([(1, "example.com"), (2, rng.bytes(32)), (3, lst)])
+                    else:
+                        tree = cbor.M([(1, rng.bytes(32)), (2, cbor.M([("id", "example.com")])), (3, cbor.M([("id", b"\x01")])),
+                                       (4, [cbor.M([("alg", -7), ("type", "public-key")])]), (5, lst)])
+                    out.append(f"C12.two.{n}\tdec2\t{bytes([cmd]).hex()}{cbor.enc(tree).hex()}")
+                    n += 1
     return out
 
 
